@@ -359,8 +359,11 @@ func judge(id, tier, repo, verif string, cfg Config, p *Prog, loadErr error, t0 
 			"failed":         p.InlineFailed,
 			"not_expanded":   p.InlineRejected,
 		}
-		if len(p.Inlined) > 0 || p.InlineFailed != "" {
-			fmt.Printf("-- normalisation: %d call site(s) of novel helpers expanded before the analysis %s\n", len(p.Inlined), p.InlineFailed)
+		if len(p.Inlined) > 0 || p.InlineFailed != "" || len(p.InlineRejected) > 0 {
+			fmt.Printf("-- normalisation: %d site(s) (calls of novel helpers, loops over literal tables) expanded before the analysis %s\n", len(p.Inlined), p.InlineFailed)
+			for _, r := range p.InlineRejected {
+				fmt.Printf("--   not expanded (the package would not type-check): %s\n", r)
+			}
 		}
 	}
 	for k, v := range variantInfo {
